@@ -1,14 +1,16 @@
-//! C09: for a (generated) Rust type T with its expected signature from the generator's own table:
-//! the declared signature matches, the serialized bytes are a strictly valid D-Bus encoding of the
-//! expected signature (independent reference decoder) consuming everything, and values round-trip.
+//! C09: for a (generated) Rust type T with its expected signature and wire value from the
+//! generator's own table: the declared signature matches, the serialized bytes are a strictly valid
+//! D-Bus encoding of the expected signature (independent reference decoder) consuming everything and
+//! denoting the value the table predicts, and values round-trip (bytes and, where derived, Value).
 
-use crate::genval::Gen;
+use crate::bridge;
+use crate::genval::{Gen, ToR};
 use serde::{de::DeserializeOwned, Serialize};
 use vcore::refmodel::{dbus, sig};
 use vcore::run::{CaseResult, Failure, Obs};
 use vcore::src::{fnv, hex, Src};
 use zvariant::serialized::Context;
-use zvariant::{Endian, Type};
+use zvariant::{Endian, OwnedValue, Type, Value};
 
 pub struct TypeEntry {
     pub name: &'static str,
@@ -17,11 +19,12 @@ pub struct TypeEntry {
     /// how many derived types are nested inside (incl. itself)
     pub nesting: u32,
     pub check: fn(&TypeEntry, &mut Src, &mut Obs) -> CaseResult,
+    pub value_check: Option<fn(&TypeEntry, &mut Src, &mut Obs) -> CaseResult>,
 }
 
 pub fn check_type<T>(e: &TypeEntry, src: &mut Src, obs: &mut Obs) -> CaseResult
 where
-    T: Type + Serialize + DeserializeOwned + PartialEq + std::fmt::Debug + Gen,
+    T: Type + Serialize + DeserializeOwned + PartialEq + std::fmt::Debug + Gen + ToR,
 {
     let declared = T::SIGNATURE.to_string();
     // (a multi-type signature prints with outer parentheses; the table holds single complete types
@@ -38,12 +41,23 @@ where
     let bytes = enc.bytes().to_vec();
     let describe = || format!("type {} ({}, signature {}), value {v:?}, {} offset {off}, bytes {}", e.name, e.kind, e.expected, if big { "BE" } else { "LE" }, hex(&bytes[..bytes.len().min(120)]));
     // the bytes conform to the expected signature
-    let seq = sig::parse_str(e.expected, false).ok_or_else(|| Failure::new(format!("generator bug: bad expected signature {}", e.expected)))?;
+    let Some(seq) = sig::parse_str(e.expected, false) else {
+        // (a generator problem, not a property violation)
+        eprintln!("INFRA: generator produced an invalid expected signature {}", e.expected);
+        std::process::exit(2);
+    };
     let (r, _grey) = dbus::unmarshal_seq(&seq, &bytes, big, off, 0);
     match r {
-        Ok((_, used)) => {
+        Ok((vals, used)) => {
             if used != bytes.len() {
                 return Err(Failure::new(format!("the serialized bytes have {} bytes beyond a valid encoding of the declared signature; {}", bytes.len() - used, describe())));
+            }
+            // ... and denote the value the generator's table predicts for this Rust value
+            if vals.len() == 1 {
+                let want = v.to_r();
+                if !vals[0].eq_unordered(&want) {
+                    return Err(Failure::new(format!("the serialized bytes denote {} but the value is {}; {}", vals[0].show(), want.show(), describe())));
+                }
             }
         }
         Err(rej) => return Err(Failure::new(format!("the serialized bytes do not conform to the declared signature ({rej:?}); {}", describe()))),
@@ -60,6 +74,20 @@ where
     if used != bytes.len() {
         return Err(Failure::new(format!("decoding consumed {used} of {} bytes; {}", bytes.len(), describe())));
     }
+    // decoding the reference marshaller's bytes for the predicted value gives the value too
+    // (the decoder on its own, not only as the inverse of the encoder)
+    if seq.len() == 1 {
+        let renc = dbus::marshal(&v.to_r(), big, off);
+        if renc.fds.is_empty() {
+            let data = zvariant::serialized::Data::new(&renc.bytes[..], ctxt);
+            let r: zvariant::Result<(T, usize)> = data.deserialize();
+            match r {
+                Ok((b2, _)) if b2 == v => {}
+                Ok((b2, _)) => return Err(Failure::new(format!("decoding the reference encoding gives {b2:?}; {}", describe()))),
+                Err(x) => return Err(Failure::new(format!("decoding the reference encoding {} failed: {x}; {}", hex(&renc.bytes[..renc.bytes.len().min(120)]), describe()))),
+            }
+        }
+    }
     obs.label(e.kind);
     if e.nesting >= 2 || e.kind.contains("enum") || e.kind.contains("dict") {
         let mut k = e.name.as_bytes().to_vec();
@@ -67,5 +95,43 @@ where
         obs.nontrivial(fnv(&k));
         obs.sample(e.kind, describe);
     }
+    Ok(())
+}
+
+/// derived conversions to and from `Value` / `OwnedValue`
+pub fn check_value<T>(e: &TypeEntry, src: &mut Src, obs: &mut Obs) -> CaseResult
+where
+    T: Type + Clone + PartialEq + std::fmt::Debug + Gen + ToR + TryFrom<Value<'static>> + TryFrom<OwnedValue>,
+    Value<'static>: From<T>,
+    OwnedValue: TryFrom<T>,
+    <T as TryFrom<Value<'static>>>::Error: std::fmt::Debug,
+    <T as TryFrom<OwnedValue>>::Error: std::fmt::Debug,
+    <OwnedValue as TryFrom<T>>::Error: std::fmt::Debug,
+{
+    let mut fuel = 10;
+    let v = T::gen(src, &mut fuel);
+    let describe = || format!("type {} ({}, signature {}), value {v:?}", e.name, e.kind, e.expected);
+    let val: Value<'static> = Value::from(v.clone());
+    let vs = val.value_signature().to_string();
+    if vs != e.expected {
+        return Err(Failure::new(format!("the Value made from the type reports signature {vs:?}; {}", describe())));
+    }
+    let r = bridge::from_value(&val).map_err(|x| Failure::new(format!("harness: {x:?}")))?;
+    let want = v.to_r();
+    if !r.eq_unordered(&want) {
+        return Err(Failure::new(format!("the Value made from the type is {} but the value is {}; {}", r.show(), want.show(), describe())));
+    }
+    let back = T::try_from(val).map_err(|x| Failure::new(format!("Value -> type failed: {x:?}; {}", describe())))?;
+    if back != v {
+        return Err(Failure::new(format!("type -> Value -> type gives {back:?}; {}", describe())));
+    }
+    let owned = OwnedValue::try_from(v.clone()).map_err(|x| Failure::new(format!("type -> OwnedValue failed: {x:?}; {}", describe())))?;
+    let back = T::try_from(owned).map_err(|x| Failure::new(format!("OwnedValue -> type failed: {x:?}; {}", describe())))?;
+    if back != v {
+        return Err(Failure::new(format!("type -> OwnedValue -> type gives {back:?}; {}", describe())));
+    }
+    obs.label("value-conversions");
+    obs.nontrivial(fnv(format!("V{}{:?}", e.name, v).as_bytes()));
+    obs.sample("value-conversions", describe);
     Ok(())
 }
